@@ -29,6 +29,9 @@ import (
 type symTable struct {
 	Funcs map[string]string   `json:"funcs"` // reviewed short name -> fingerprint
 	Types map[string]typeSym  `json:"types"` // reviewed "pkgrel.Name" -> shape
+	// Place: reviewed short name -> signature and static callers; a function that was renamed
+	// *and* edited keeps its place in the call graph (second-chance match, see resolve)
+	Place map[string]string `json:"place,omitempty"`
 	Note  string              `json:"note"`
 	Pkgs  map[string][]string `json:"-"`
 }
@@ -313,7 +316,7 @@ func fingerprint(fn *ssa.Function) string {
 }
 
 func (c *Ctx) currentSymbols() *symTable {
-	st := &symTable{Funcs: map[string]string{}, Types: map[string]typeSym{}}
+	st := &symTable{Funcs: map[string]string{}, Types: map[string]typeSym{}, Place: map[string]string{}}
 	for name, tn := range c.moduleTypes() {
 		st.Types[name] = shapeOfType(tn)
 	}
@@ -322,8 +325,37 @@ func (c *Ctx) currentSymbols() *symTable {
 			continue
 		}
 		st.Funcs[rawShort(fn)] = fingerprint(fn)
+		st.Place[rawShort(fn)] = c.placeOf(fn, nil)
 	}
 	return st
+}
+
+// placeOf: the signature of fn and the names of the functions that call it statically (outermost
+// enclosing function for calls from literals), as one string. rename maps a current function to
+// the reviewed name it was matched with.
+func (c *Ctx) placeOf(fn *ssa.Function, rename map[*ssa.Function]string) string {
+	sites, _ := c.staticCallers(fn)
+	seen := map[string]bool{}
+	for _, s := range sites {
+		f := s.Fn
+		for f.Parent() != nil {
+			f = f.Parent()
+		}
+		if f == fn {
+			continue
+		}
+		n := aliasedTypeNames(rawShort(f))
+		if old, ok := rename[f]; ok {
+			n = old
+		}
+		seen[n] = true
+	}
+	var names []string
+	for n := range seen {
+		names = append(names, n)
+	}
+	sort.Strings(names)
+	return typeDesc(fn.Signature) + " <- " + strings.Join(names, ",")
 }
 
 func (c *Ctx) writeSymbols(path string) error {
@@ -507,6 +539,47 @@ func (c *Ctx) applyRenames() {
 			if back == 1 {
 				aliasFn[curF[cands[0]]] = ln
 				aliasReport = append(aliasReport, "func "+cands[0]+" is the reviewed "+ln)
+			}
+		}
+	}
+	// second chance: a function that was renamed and edited in the same change no longer has the
+	// reviewed fingerprint, but it still has the reviewed signature, receiver and callers. Matched
+	// only when exactly one lost and one new function of the package share that place and the
+	// place has at least one caller.
+	matchedNew := map[string]bool{}
+	for fn := range aliasFn {
+		matchedNew[aliasedTypeNames(rawShort(fn))] = true
+	}
+	matchedOld := map[string]bool{}
+	for _, old := range aliasFn {
+		matchedOld[old] = true
+	}
+	for pkg, lost := range lostF {
+		for _, ln := range lost {
+			want, ok := spec.Place[ln]
+			if matchedOld[ln] || !ok || strings.HasSuffix(want, " <- ") {
+				continue
+			}
+			var cands []string
+			for _, nn := range newF[pkg] {
+				if matchedNew[nn] || recvOf(nn) != recvOf(ln) {
+					continue
+				}
+				if c.placeOf(curF[nn], aliasFn) == want {
+					cands = append(cands, nn)
+				}
+			}
+			back := 0
+			for _, l2 := range lost {
+				if !matchedOld[l2] && recvOf(l2) == recvOf(ln) && spec.Place[l2] == want {
+					back++
+				}
+			}
+			if len(cands) == 1 && back == 1 {
+				aliasFn[curF[cands[0]]] = ln
+				matchedNew[cands[0]] = true
+				matchedOld[ln] = true
+				aliasReport = append(aliasReport, "func "+cands[0]+" takes the place of the reviewed "+ln+" (same signature and callers; body changed)")
 			}
 		}
 	}
